@@ -56,7 +56,8 @@ pub fn random_shape(rng: &mut rand_chacha::ChaChaRng, name: &str, max_pad: usize
         let n_ops = rng.gen_range(1..8);
         for _ in 0..n_ops {
             p1.push(match rng.gen_range(0..10) {
-                0 | 1 => Commit,
+                0 => Commit,
+                1 => if rng.gen_bool(0.85) { Commit } else { CommitZero },
                 2 | 3 => AllocMul,
                 4 => Alloc,
                 5 => Mul,
@@ -186,5 +187,12 @@ pub fn c15_pipeline_cases(thorough: bool, seed: u64) -> Vec<(Shape, ErrPlan)> {
         v.push((Shape::new(&format!("tree{}_accept", k), &p1, &[]), ErrPlan::default()));
         v.push((Shape::new(&format!("tree{}_offset", k), &p1, &[]), ErrPlan { con: vec![0], gate: vec![] }));
     }
+    v
+}
+
+pub fn c06_shapes(thorough: bool, seed: u64) -> Vec<Shape> {
+    let mut v = c01_shapes(thorough, seed);
+    // a commitment that is the identity point (commit(0,0)) must still be absorbed
+    v.push(Shape::new("identity_commitment", &[Commit, CommitZero, Commit, AllocMul, Con], &[]));
     v
 }
